@@ -47,17 +47,19 @@ func classify(rec *httptest.ResponseRecorder, msg string) vc.Val {
 	return vc.L{1, strings.Contains(string(body), msg)}
 }
 
+func sseOf(cancHdr int) bool { return cancHdr%4 >= 2 }
+
 func errPart(w *vc.Writer, r *vc.Rand) {
 	overrides := []int{0, 418, 451}
 	for code := 1; code <= 16; code++ {
-		for origin := 0; origin < 4; origin++ { // 0 router, 1 stream creation, 2 target status, 3 target status on a server-streaming call after one message (already written)
+		for origin := 0; origin < 5; origin++ { // 0 router, 1 stream creation, 2 target status, 3 target status on a server-streaming call after one message (already written), 4 target status after the response message of a UNARY call (nothing written yet: the bridge waits for the status before it answers)
 			for det := 0; det < 3; det++ { // 0 none, 1 resolvable, 2 type unknown to the target
 				for _, ov := range overrides {
 					for cancHdr := 0; cancHdr < 8; cancHdr++ {
 						// hdr: the target also sends an allow-listed response header before it fails (origins 2, 3 only): the header is
 						// handed to the client, the status line and the error body must be what they are without it
 						canc4, hdr := cancHdr%4, cancHdr >= 4
-						if hdr && (origin < 2 || det != 0 || ov != 0) {
+						if hdr && (origin < 2 || det != 0 || ov != 0) || origin == 4 && sseOf(cancHdr) {
 							continue
 						}
 						// canc 2, 3: as 0, 1 but negotiated as Server-Sent Events (Accept: text/event-stream) on a server-streaming
@@ -106,6 +108,8 @@ func errPart(w *vc.Writer, r *vc.Rand) {
 						case 3:
 							conn.Script = []vfake.RespItem{{Kind: vfake.KMsg, Payload: vfake.Flow("first")}, {Kind: vfake.KErr, Status: st}}
 							written = canc == 0
+						case 4:
+							conn.Script = []vfake.RespItem{{Kind: vfake.KMsg, Payload: vfake.Flow("first")}, {Kind: vfake.KErr, Status: st}}
 						}
 						opts := webbridge.TranscodedHTTPBridgeOpts{}
 						if hdr {
@@ -147,7 +151,11 @@ func errPart(w *vc.Writer, r *vc.Rand) {
 								impl = vc.L{rec.Code, classify(rec, msg)}
 							}
 						}
-						w.Case(vc.L{written, canc == 1, bound, encodable, code, ovv, ndet}, impl, true)
+						in := vc.L{written, canc == 1, bound, encodable, code, ovv, ndet}
+						if origin == 4 {
+							in = append(in, "unary call: the status arrives after the response message")
+						}
+						w.Case(in, impl, true)
 					}
 				}
 			}
